@@ -87,7 +87,7 @@ def showIEp (e : IEp) : String :=
     e.node ++ "|" ++ e.tls ++ "|" ++ e.locality ++ "|" ++ e.workload ++ "|" ++ e.network ++ "|" ++ e.hostname ++ "|" ++
     e.subdomain ++ "|" ++ showMap e.labels
 
-def showIEps (l : List IEp) : String := "[" ++ ",".intercalate (sortStrings (l.map showIEp)) ++ "]"
+def showIEps (l : List IEp) : String := "[" ++ ",".intercalate (l.map showIEp) ++ "]"
 
 def clusterIP (name : String) : String :=
   match name.toUTF8.toList with
@@ -458,11 +458,26 @@ structure CState where
 
 /-- does the history lie in the class of `convergence_any_order` (every step good)?  `-` for
     histories with `hold` (outside the class by definition), `s` when every step is good but a slice is
-    still stale at the end (a pod was deleted and the slice controller has not rewritten the slice:
-    `convergence_to_derive` does not apply) -/
+    still stale or waiting at the end (a pod was deleted and the slice controller has not rewritten the slice,
+    or a pod a slice refers to has no IP yet: `convergence_to_derive` does not apply) -/
 def goodTok (ops : List Op) : String :=
   if ops.any (fun o => decide (o = Op.hold)) then "-"
-  else if decide (AllGood {} [] ops) then (if (staleRun {} [] ops).isEmpty then "1" else "s") else "0"
+  else if decide (AllGood {} [] [] ops) then
+    (if (staleRun {} [] [] ops).isEmpty && (waitRun {} [] [] ops).isEmpty then "1" else "s") else "0"
+
+def opKind : Op → String
+  | .svc _ => "svc" | .delSvc _ _ => "delsvc" | .slice _ => "slice" | .delSlice _ _ => "delslice"
+  | .pod _ => "pod" | .delPod _ _ => "delpod" | .node _ => "node" | .delNode _ => "delnode"
+  | .ns _ => "ns" | .delNs _ => "delns" | .hold => "hold" | .release => "release"
+
+/-- the first step of a history that is not good (diagnostics for the coverage counters) -/
+def firstBad : Ctl → StaleSet → WaitSet → Nat → List Op → String
+  | _, _, _, _, [] => "none"
+  | c, st, wp, i, o :: r =>
+    if decide (GoodStep c st wp o) then
+      firstBad ((stepC c o).getD c) (if (stepC c o).isSome then staleStep c st o else st)
+        (if (stepC c o).isSome then waitStep c st wp o else wp) (i + 1) r
+    else toString i ++ ":" ++ opKind o
 
 /-- the side conditions of `convergence_to_derive` on the final objects -/
 def sideOK (c : Ctl) : Bool :=
@@ -524,6 +539,7 @@ def stepClassify (cs : CState) (toks : List String) : CState × String :=
       boolTok (agreesWith cold.c (coldFold {} coldOps).1) ++
       " nodes=" ++ boolTok (decide (NodesUnique (coldFold {} coldOps).1)) ++
       " coldagree=" ++ boolTok (viewsAgree s'.c cold.c) ++
+      " bad=" ++ firstBad {} [] [] 0 ops ++
       " ordered=" ++ enc (showView s'.c) ++ " cold=" ++ enc (showView cold.c))
   | _ =>
     let s' := (stepD0 cs.s toks).1
